@@ -389,7 +389,9 @@ static RunResult run_c11(Json const& plan)
     long P_decl = decl < 0 ? P_cap : std::min(P_cap, decl);
     IoCtx ctx;
     ctx.budget_total = 4096 + 16 * ((long)bytes.size() + P_cap);
-    ctx.budget_post_eof = 4096 + 8 * P_decl;
+    // after the first EOF / error a reader may still do work proportional to what is left of the input (libtiff asks for the
+    // file size by seeking to its end before it reads a byte, and then reads e.g. a 384 KiB colour map) and to the declared size
+    ctx.budget_post_eof = 4096 + 8 * P_decl + 4 * (long)bytes.size();
     snprintf(ctx.where, sizeof ctx.where, "%s/%s/%s/%s", f->name.c_str(), plan.str("variant").c_str(), s.entry.c_str(), dev_name(s.dev.kind));
     rr.cfg = ctx.where;
     io_ctx() = &ctx;
